@@ -18,8 +18,82 @@ func init() {
 		ID: "C06", Run: runC06, QuickRuns: 100000, ThoroughRuns: 2000000,
 		Rule:       "Each run: 1..3 header parameter sets (any flags/seq id, allow-listed protocol ids, 0..many int/string entries, the ACL-token key, empty and 64KiB-scale strings, every padding residue, header sizes biased to just under/at/over the 64KiB limit) are encoded with Encode into a bufiox.DefaultWriter over a simulated Sink that already holds a random amount of unflushed data (the 14-byte meta region is allocated before and its size field written after 0..many buffer growths), the caller stores the total length and appends a payload; also EncodeToBytes and a bytes-backed writer. The frame is parsed by an independent layout parser, then decoded through a fragmenting Source with Decode and with DecodeFromBytes, and the payload is read back.",
 		Components: realComponents,
-		Probes:     []string{"header_exactly_65536", "header_over_limit_rejected", "header_just_under_limit", "acl_token", "empty_maps", "padding_residue_0", "padding_residue_1", "padding_residue_2", "padding_residue_3", "meta_before_growth", "encode_failed", "pipelined_connection"},
+		Probes:     []string{"header_exactly_65536", "header_over_limit_rejected", "header_just_under_limit", "acl_token", "empty_maps", "padding_residue_0", "padding_residue_1", "padding_residue_2", "padding_residue_3", "meta_before_growth", "encode_failed", "pipelined_connection", "encode_into_failing_writer"},
 	})
+}
+
+// public key names of the TTHeader transport (inputs, not oracle constants)
+var wellKnownStrKeys = []string{"isn", "rip", "tc", "ti", "pcs", "pce", "pss", "prs", "pre", "crrst", "K_ProcessAtTime"}
+
+// faultyWriter is a bufiox.Writer that delegates to a real one but fails its k-th
+// Malloc/WriteBinary call (the fault is in the writer handed to Encode, not in its sink).
+type faultyWriter struct {
+	w      bufiox.Writer
+	calls  int
+	failAt int
+	err    error
+	fired  bool
+}
+
+func (f *faultyWriter) Malloc(n int) ([]byte, error) {
+	f.calls++
+	if f.calls == f.failAt {
+		f.fired = true
+		return nil, f.err
+	}
+	return f.w.Malloc(n)
+}
+
+func (f *faultyWriter) WriteBinary(bs []byte) (int, error) {
+	f.calls++
+	if f.calls == f.failAt {
+		f.fired = true
+		return 0, f.err
+	}
+	return f.w.WriteBinary(bs)
+}
+func (f *faultyWriter) WrittenLen() int { return f.w.WrittenLen() }
+func (f *faultyWriter) Flush() error    { return f.w.Flush() }
+
+// c06FaultyWriter: Encode into a writer that fails at its k-th call, for every k: Encode
+// either fails with an error or the frame it reports as written is a valid frame.
+func c06FaultyWriter(c *sim.Ctx, st *sim.Stream) {
+	ctx := context.Background()
+	p := genTTParams(c, st)
+	if headerInfoSize(p) > 5000 {
+		p.Int, p.Str = nil, map[string]string{"k": "v"}
+	}
+	ep := ttheader.EncodeParam{Flags: ttheader.HeaderFlags(p.Flags), SeqID: p.Seq, ProtocolID: ttheader.ProtocolID(p.Proto), IntInfo: p.Int, StrInfo: p.Str}
+	// count the calls of a fault-free encode
+	probe := &faultyWriter{w: bufiox.NewDefaultWriter(sim.NewSink(c, "probe")), failAt: -1}
+	if _, err := ttheader.Encode(ctx, ep, probe); err != nil {
+		return
+	}
+	total := probe.calls
+	c.Count("probe.encode_into_failing_writer")
+	for k := 1; k <= total; k++ {
+		c.Ops++
+		sink := sim.NewSink(c, "fw")
+		fw := &faultyWriter{w: bufiox.NewDefaultWriter(sink), failAt: k, err: sim.ErrCustom}
+		var tl []byte
+		var err error
+		c.GuardNoOOM("Encode/faulty-writer", func() { tl, err = ttheader.Encode(ctx, ep, fw) })
+		if err != nil {
+			continue
+		}
+		// Encode reports success although one of its writes failed: then what it wrote must
+		// still be a valid frame for these parameters
+		hdrLen := fw.w.WrittenLen()
+		if len(tl) == 4 {
+			binary.BigEndian.PutUint32(tl, uint32(hdrLen-4))
+		}
+		_ = fw.w.Flush()
+		f := ref.ParseTTFrame(sink.Got)
+		if !f.OK || f.HeaderLen != len(sink.Got) || !mapsEqualInt(f.Int, p.Int) || !mapsEqualStr(f.Str, p.Str) {
+			c.Fail("FRAME_LAYOUT", "Encode/faulty-writer", sim.F{"reason": "error swallowed", "failed_call": k, "of": total},
+				"the writer failed at call %d of %d but Encode returned nil, and the %d bytes it wrote are not a valid frame for the parameters (%s)", k, total, len(sink.Got), f.Reason)
+		}
+	}
 }
 
 func genTTString(st *sim.Stream, big bool) string {
@@ -92,6 +166,10 @@ func genTTParams(c *sim.Ctx, st *sim.Stream) *ref.TTParams {
 	}
 	for i := 0; i < ns; i++ {
 		k := genTTString(st, st.Chance(1, 60))
+		if st.Chance(1, 3) {
+			// the well-known string keys of the public API (metakey.go) are ordinary keys too
+			k = wellKnownStrKeys[st.Choose(len(wellKnownStrKeys))]
+		}
 		p.Str[k] = genTTString(st, st.Chance(1, 40))
 	}
 	if st.Chance(1, 4) {
@@ -286,6 +364,11 @@ func runC06(c *sim.Ctx) {
 	st := c.Tape.S("ops")
 	if cfg.Chance(1, 4) {
 		c06Pipeline(c, cfg, st)
+		mcache.SimCheckPoison()
+		return
+	}
+	if cfg.Chance(1, 8) {
+		c06FaultyWriter(c, st)
 		mcache.SimCheckPoison()
 		return
 	}
